@@ -134,6 +134,16 @@ def replay(run, cache, tv):
         cmp.vec(f"{kind}/left_jacobian_inv/inverse_gen/{cell}", "J_l J_l^-1 != I", Jl @ Jli, I(d), tv)
         cmp.vec(f"{kind}/right_jacobian_inv/inverse_gen/{cell}", "J_r J_r^-1 != I", Jr @ Jri, I(d), tv)
         cmp.vec(f"{kind}/Jl_eq_Ad_Jr_gen/{cell}", "J_l != Ad_exp(xi) J_r", Jl, AdE @ Jr, tv)
+        # tiny translational part (Jacobians!TinyTranslation): the coupling blocks are linear in it
+        s_ = 4e-7
+        xi_s = xi.copy(); xi_s[:d - 3] *= s_
+        Js = call_alg(run, cache, kind, xi_s, tv)
+        for nm, J0, J1 in zip(("left_jacobian", "left_jacobian_inv", "right_jacobian", "right_jacobian_inv"), (Jl, Jli, Jr, Jri), Js[:4]):
+            J0 = np.asarray(J0, float); J1 = np.asarray(J1, float)
+            cmp.vec(f"{kind}/{nm}/tiny_translation/{cell}", "coupling block for a translational part of 1e-6 is not the scaled coupling block (Q is linear in it)",
+                    J1[:d - 3, d - 3:] / s_, J0[:d - 3, d - 3:], tv, {"scale": s_})
+            cmp.vec(f"{kind}/{nm}/tiny_translation_diag/{cell}", "rotational blocks change with the size of the translational part",
+                    J1[d - 3:, d - 3:], J0[d - 3:, d - 3:], tv, {"scale": s_})
     elif op == "jac_zero":
         kind = tv["kind"]
         ad = np.array(tv["ad"], float); d = ad.shape[0]
